@@ -184,6 +184,12 @@ class StmtMixin:
     def assign(self, target, v, st, node):
         """Generator of (state, outcome)."""
         if isinstance(target, ast.Name):
+            lt = (self.cur_ci.decl.opts.get("locals") or {}).get(target.id) if getattr(self, "cur_ci", None) is not None else None
+            if lt is not None and len(st.frames) == 1 and isinstance(v, (PyDict, PyList)):
+                try:
+                    v = coerce(v, lt)      # a literal assigned to a local whose type the contract declares ({} -> Map, [] -> Seq)
+                except TypeError:
+                    pass
             self.set_local(st, target.id, v)
             yield st, NORMAL
         elif isinstance(target, ast.Attribute):
@@ -466,6 +472,18 @@ class StmtMixin:
         yield from self.loop_with_invariant(node, st, kind="while")
 
     def ex_For(self, node, st):
+        it_node = node.iter
+        if isinstance(it_node, ast.Call) and isinstance(it_node.func, ast.Attribute) and it_node.func.attr == "items" and not it_node.args:
+            # `for k, v in d.items()` over a dictionary value: iterate the key set, bind (k, d[k])
+            for st1, base in self.ev(it_node.func.value, st):
+                if isinstance(base, Raise):
+                    yield st1, ("raise", base.exc)
+                    continue
+                if not (isinstance(base, Val) and isinstance(base.ty, TMap)):
+                    raise Unsupported("items() of %r" % (base,), node)
+                keys = Val(TSet(base.ty.key), [base.terms[0]])
+                yield from self.loop_with_invariant(node, st1, kind="for", iterable=keys, items_of=base)
+            return
         for st1, it in self.ev(node.iter, st):
             if isinstance(it, Raise):
                 yield st1, ("raise", it.exc)
